@@ -91,6 +91,34 @@ Section Run.
     | None => false
     end.
 
+  (** the name the ClientHello asks for is unusable: its IDNA conversion fails or it does not qualify *)
+  Definition name_bad (c : lcase) : bool :=
+    match hello_name lower is_space (l_cfg c) (l_ip c) (x_idna (l_envx c)) with
+    | Some nm => negb (subject_qualifies is_space nm)
+    | None => true
+    end.
+  (** a certificate for that name can be loaded from storage (cache almost full, stored, still valid) *)
+  Definition loadable (c : lcase) : bool :=
+    almost_full (l_cap c) (length (cache (l_state c))) &&
+    match hello_name lower is_space (l_cfg c) (l_ip c) (x_idna (l_envx c)) with
+    | Some nm => match load_from_storage (x_storage (l_envx c)) (x_broken (l_envx c)) nm with
+                 | Some x => sd_servable x | None => false end
+    | None => false
+    end.
+  Definition sel_some (c : lcase) (v : name) : bool :=
+    match self c (l_state c) v with Some _ => true | None => false end.
+  (** "an error if and only if no certificate is available": nothing matched, and the name is
+      unusable or neither the default name (no SNI) nor the fallback name yields a certificate and
+      none can be loaded *)
+  Definition error_ok (c : lcase) : bool :=
+    let n := normalize lower is_space (l_sni c) in
+    let dflt := is_nil n && negb (is_nil (default_name (l_cfg c))) in
+    let fb := negb (is_nil (fallback_name (l_cfg c))) in
+    name_bad c ||
+    negb ((dflt && sel_some c (normalize lower is_space (default_name (l_cfg c)))) ||
+          (fb && sel_some c (normalize lower is_space (fallback_name (l_cfg c)))) ||
+          loadable c).
+
   Definition sel_is (c : lcase) (v : name) (h : hash) : bool :=
     match self c (l_state c) v with Some x => str_eqb (c_hash x) h | None => false end.
 
@@ -113,7 +141,7 @@ Section Run.
         match o with
         | OEmpty => false                                         (* never empty with a nil error *)
         | OErr => match first_listed s (match_names c) with       (* a listed name is never refused *)
-                  | Some _ => false | None => true end
+                  | Some _ => false | None => error_ok c end
         | OCert h complete =>
             complete && known_complete c h &&
             match first_listed s (match_names c) with
@@ -137,7 +165,8 @@ Section Run.
            offered (the certificates listed under the name, or all cached ones) decides *)
         match o with
         | OEmpty => false
-        | OErr => forallb (fun v => match self c s v with Some _ => false | None => true end) (match_names c)
+        | OErr => forallb (fun v => match self c s v with Some _ => false | None => true end) (match_names c) &&
+                  error_ok c
         | OCert h complete =>
             complete && known_complete c h &&
             match first_sel (self c) s (match_names c) with
